@@ -185,10 +185,10 @@ PROPS = {
     'C18': dict(
         level='model_checking', design_ref='5/C18', oracle='C18',
         technique='explicit-state exploration of exact / base-class / Kleene triggers incl. queued and deferred delivery + reference-model conformance + payload checks',
-        quick=[S('evt', ops=['start', 'stop', 'pe:1', 'pe:2', 'pe:3', 'pe:4', 'pe:5', 'eq:3', 'eq:2', 'xq'], qbound=2)],
-        thorough=[S('evt', ops=['start', 'stop', 'pe:1', 'pe:2', 'pe:3', 'pe:4', 'pe:5', 'eq:1', 'eq:3', 'eq:2', 'xq', 'xs'], qbound=3)],
+        quick=[S(z, ops=['start', 'stop', 'pe:1', 'pe:2', 'pe:3', 'pe:4', 'pe:5', 'eq:3', 'eq:2', 'xq'], qbound=2) for z in ('evt', 'evt_u')],
+        thorough=[S(z, ops=['start', 'stop', 'pe:1', 'pe:2', 'pe:3', 'pe:4', 'pe:5', 'eq:1', 'eq:3', 'eq:2', 'xq', 'xs'], qbound=3) for z in ('evt', 'evt_u')],
         rule='every configuration x every event type of the hierarchy (payload = serial-derived checksum, verified at every callback) x guard valuations, '
-             'delivered directly, from the queue and after deferral; back (deque and circular queues) and backmp11 flat_fold',
+             'delivered directly, from the queue and after deferral; Kleene type boost::any / std::any (evt) and a user-declared one (evt_u); back (deque and circular queues) and backmp11 flat_fold (back11 rejects the declarations at compile time)',
     ),
     'C19': dict(
         level='model_checking', design_ref='5/C19', oracle='C19',
